@@ -313,3 +313,18 @@ mk("m24_f1_reverted", "C04", [(FG,
    """        let fn_mut_refs = &fn_mut_refs;
         let scheduler = async move {
             let result_tx_ref = &result_tx;""", 0)], "finding F1 reverted: try_for_each_concurrent_mut* on an empty graph")
+mk("m25_static_roots_cache", "C04", [(FG,
+   """    fns_no_predecessors(graph_structure, predecessor_counts)
+        .try_for_each(|fn_id| fn_ready_tx.try_send(fn_id))
+        .expect("Failed to preload function with no predecessors.");""",
+   """    // Cache the functions to start with.
+    static FNS_INITIAL: std::sync::OnceLock<Vec<FnId>> = std::sync::OnceLock::new();
+    let fns_initial = FNS_INITIAL
+        .get_or_init(|| fns_no_predecessors(graph_structure, predecessor_counts).collect());
+    fns_initial
+        .iter()
+        .copied()
+        .filter(|fn_id| fn_id.index() < predecessor_counts.len())
+        .try_for_each(|fn_id| fn_ready_tx.try_send(fn_id))
+        .expect("Failed to preload function with no predecessors.");""", 0)],
+   "process-global cache of the initial functions: state outside the case (exercises the history-replay fallback)")
